@@ -88,6 +88,7 @@ class Repo:
         self.modules = {}
         self.funcs = {}               # fullname -> FuncInfo
         self.classes = {}             # fullname -> ClassInfo
+        self.moved_anchors = {}       # anchor spec -> where it was found instead
         pkg_root = os.path.join(root, PKG)
         if not os.path.isdir(pkg_root):
             raise AnalysisError(f"no package directory {pkg_root}")
@@ -175,6 +176,17 @@ class Repo:
         exact = [h for h in hits if h.qualname == q]
         if len(exact) == 1:
             return exact[0]
+        if len(hits) == 0 and q.count('.') >= 1:
+            # a nested helper / method that was moved (made a method, a static
+            # method, a module-level function, given a leading underscore):
+            # accept it if its bare name is still unique in the package
+            last = q.split('.')[-1].lstrip('_')
+            moved = [f for f in self.funcs.values() if f.node.name.lstrip('_') == last]
+            if msuf_ok := [f for f in moved if ':' not in spec or f.module.name.endswith(spec.split(':', 1)[0])]:
+                moved = msuf_ok
+            if len(moved) == 1:
+                self.moved_anchors[spec] = moved[0].fullname
+                return moved[0]
         if len(hits) != 1:
             raise AnalysisError(
                 f"function anchor {spec!r}: {len(hits)} candidates "
